@@ -1556,6 +1556,183 @@ example : deriveVolumeAndArea 10 2 [3, 4] [3 / 2, 2] = some (13, 13 / 2) := by d
 example : (13 / 2 : Rat) + sumBy id [3 / 2, 2] = 10 :=
   derived_closes_area 10 2 13 (13 / 2) [3, 4] [3 / 2, 2] (by norm_num) (by norm_num) (by decide +kernel)
 
+/-! ### nuclide selections: nuclide, element symbol, list -/
+
+private theorem sumBy_comm {β γ : Type} (f : β → γ → Rat) (l1 : List β) (l2 : List γ) :
+    sumBy (fun b => sumBy (fun c => f b c) l2) l1 = sumBy (fun c => sumBy (fun b => f b c) l1) l2 := by
+  induction l1 with
+  | nil => simp only [sumBy]; exact (sumBy_zero l2).symm
+  | cons b l ih => simp only [sumBy, ih]; rw [← sumBy_add]
+
+private theorem resolveOne_plain (elem : ElemTable) (here : List Nuc) (s : Nuc) (h : elem s = none) :
+    resolveOne elem here s = [s] := by
+  unfold resolveOne; rw [h]; split <;> rfl
+
+private theorem resolveOne_present (elem : ElemTable) (here : List Nuc) (s : Nuc) (h : here.contains s = true) :
+    resolveOne elem here s = [s] := by
+  unfold resolveOne; rw [if_pos h]
+
+private theorem flatMap_self (here spec : List Nuc) (elem : ElemTable)
+    (h : ∀ s ∈ spec, here.contains s = true ∨ elem s = none) :
+    spec.flatMap (resolveOne elem here) = spec := by
+  induction spec with
+  | nil => rfl
+  | cons a l ih =>
+    have ih' := ih (fun s hs => h s (List.mem_cons_of_mem _ hs))
+    simp only [List.flatMap_cons, ih']
+    rcases h a (by simp) with h1 | h1
+    · rw [resolveOne_present _ _ _ h1]; rfl
+    · rw [resolveOne_plain _ _ _ h1]; rfl
+
+/-- a list of plain nuclide names (no element symbol among them) selects its distinct members, whatever is present -/
+theorem resolveSpec_plain (elem : ElemTable) (here spec : List Nuc) (h : ∀ s ∈ spec, elem s = none) :
+    resolveSpec elem here spec = dedup spec := by
+  unfold resolveSpec; rw [flatMap_self here spec elem (fun s hs => Or.inr (h s hs))]
+
+private theorem dedup_append_sub (l1 l2 : List Nuc) (h : ∀ x ∈ l1, x ∈ l2) : dedup (l1 ++ l2) = dedup l2 := by
+  induction l1 with
+  | nil => rfl
+  | cons a l ih =>
+    have ih' := ih (fun x hx => h x (List.mem_cons_of_mem _ hx))
+    simp only [List.cons_append, dedup]
+    have : (dedup (l ++ l2)).contains a = true := by
+      rw [contains_dedup]; simp [h a (by simp)]
+    rw [this, if_pos rfl, ih']
+
+/-- **duplicates in a selection count once** (the code builds a set) -/
+theorem resolveSpec_duplicates (elem : ElemTable) (here spec : List Nuc) :
+    resolveSpec elem here (spec ++ spec) = resolveSpec elem here spec := by
+  unfold resolveSpec
+  rw [List.flatMap_append]
+  exact dedup_append_sub _ _ (fun x hx => hx)
+
+/-- **the mass of a selection is the sum of the masses of its distinct resolved members** (component level) -/
+theorem comp_massSel_eq_sum (ph : Phys) (elem : ElemTable) (c : Comp) (spec : List Nuc) :
+    c.massSel ph elem spec = sumBy (fun n => c.mass ph n) (resolveSpec elem c.nd.keys spec) := by
+  unfold Comp.massSel Comp.mass
+  rw [← sumBy_mul_const]; apply sumBy_congr; intro n _; ring
+
+theorem comp_massSel_duplicates (ph : Phys) (elem : ElemTable) (c : Comp) (spec : List Nuc) :
+    c.massSel ph elem (spec ++ spec) = c.massSel ph elem spec := by
+  unfold Comp.massSel; rw [resolveSpec_duplicates]
+
+/-- a single nuclide that is present selects itself -/
+theorem comp_massSel_single (ph : Phys) (elem : ElemTable) (c : Comp) (n : Nuc)
+    (h : c.nd.keys.contains n = true) : c.massSel ph elem [n] = c.mass ph n := by
+  rw [comp_massSel_eq_sum]
+  have : resolveSpec elem c.nd.keys [n] = [n] := by
+    unfold resolveSpec
+    rw [flatMap_self c.nd.keys [n] elem (by intro s hs; simp at hs; subst hs; exact Or.inl h)]
+    simp [dedup]
+  rw [this]; simp [sumBy]
+
+/-- **an element symbol that is not itself present is the list of its isotopes** -/
+theorem comp_massSel_element (ph : Phys) (elem : ElemTable) (c : Comp) (e : Nuc) (isos : List Nuc)
+    (habs : c.nd.keys.contains e = false) (he : elem e = some isos)
+    (hiso : ∀ i ∈ isos, c.nd.keys.contains i = true ∨ elem i = none) :
+    c.massSel ph elem [e] = c.massSel ph elem isos := by
+  unfold Comp.massSel
+  have h1 : resolveSpec elem c.nd.keys [e] = dedup isos := by
+    unfold resolveSpec
+    simp only [List.flatMap_cons, List.flatMap_nil, List.append_nil]
+    unfold resolveOne; rw [habs, he]; rfl
+  have h2 : resolveSpec elem c.nd.keys isos = dedup isos := by
+    unfold resolveSpec; rw [flatMap_self c.nd.keys isos elem hiso]
+  rw [h1, h2]
+
+/-- composite levels: the mass of a list of plain nuclide names is the sum over its distinct members of the
+per-nuclide masses at that level -/
+theorem node_massSel_plain {α : Type} (f : α → List Nuc → Rat) (g : α → Nuc → Rat) (p : Node α) (spec : List Nuc)
+    (hf : ∀ c ∈ p.kids, f c spec = sumBy (fun n => g c n) (dedup spec)) :
+    Node.massSel f p spec = sumBy (fun n => sumBy (fun c => g c n) p.kids) (dedup spec) := by
+  unfold Node.massSel
+  rw [← sumBy_comm]
+  apply sumBy_congr; intro c hc; exact hf c hc
+
+theorem mass_of_selection_additive (ph : Phys) (elem : ElemTable) (spec : List Nuc)
+    (hplain : ∀ s ∈ spec, elem s = none) :
+    (∀ c : Comp, c.massSel ph elem spec = sumBy (fun n => (compOps ph).mass c n) (dedup spec)) ∧
+    (∀ b : Block, blockMassSel ph elem b spec = sumBy (fun n => (blockOps ph).mass b n) (dedup spec)) ∧
+    (∀ a : Assem, assemMassSel ph elem a spec = sumBy (fun n => (assemOps ph).mass a n) (dedup spec)) ∧
+    (∀ r : Core, coreMassSel ph elem r spec = sumBy (fun n => (coreOps ph).mass r n) (dedup spec)) := by
+  have hc : ∀ c : Comp, c.massSel ph elem spec = sumBy (fun n => (compOps ph).mass c n) (dedup spec) := by
+    intro c; rw [comp_massSel_eq_sum, resolveSpec_plain elem _ spec hplain]; rfl
+  have hb : ∀ b : Block, blockMassSel ph elem b spec = sumBy (fun n => (blockOps ph).mass b n) (dedup spec) :=
+    fun b => node_massSel_plain _ (fun c n => (compOps ph).mass c n) b spec (fun c _ => hc c)
+  have ha : ∀ a : Assem, assemMassSel ph elem a spec = sumBy (fun n => (assemOps ph).mass a n) (dedup spec) :=
+    fun a => node_massSel_plain _ (fun b n => (blockOps ph).mass b n) a spec (fun b _ => hb b)
+  exact ⟨hc, hb, ha, fun r => node_massSel_plain _ (fun a n => (assemOps ph).mass a n) r spec (fun a _ => ha a)⟩
+
+/-- an element symbol at a composite level: every component resolves it for itself, so the block's element mass
+is the sum of the components' element masses (`comp_massSel_element` then gives each as a sum over isotopes) -/
+theorem block_massSel_is_sum_of_components (ph : Phys) (elem : ElemTable) (b : Block) (spec : List Nuc) :
+    blockMassSel ph elem b spec = sumBy (fun c => c.massSel ph elem spec) b.kids := rfl
+
+/-! ### one statement for all four levels: atoms counted at core level are the components' atoms -/
+
+def BlockOK (ph : Phys) (b : Block) : Prop :=
+  b.volCoded = none ∧ b.sym ≠ 0 ∧ sumBy (compOps ph).vol b.kids ≠ 0
+
+def AssemOK (ph : Phys) (a : Assem) : Prop :=
+  a.sym ≠ 0 ∧ sumBy (blockOps ph).vol a.kids ≠ 0 ∧ (assemOps ph).vol a = sumBy (blockOps ph).vol a.kids ∧
+  ∀ b ∈ a.kids, BlockOK ph b
+
+def CoreOK (ph : Phys) (r : Core) : Prop :=
+  r.volCoded = none ∧ r.sym = 1 ∧ sumBy (assemOps ph).vol r.kids ≠ 0 ∧ ∀ a ∈ r.kids, AssemOK ph a
+
+/-- block: `N_b · V_b = Σ_c N_c · V_c / sym_b` -/
+theorem block_atoms_eq_sum_components (ph : Phys) (b : Block) (n : Nuc) (h : BlockOK ph b) :
+    (blockOps ph).nd b n * (blockOps ph).vol b = sumBy (fun c => c.vol * c.nd.get n / b.sym) b.kids := by
+  obtain ⟨hcoded, hs, hv⟩ := h
+  have ha : Node.nd (compOps ph) b n * sumBy (compOps ph).vol b.kids
+      = sumBy (fun c => c.vol * c.nd.get n) b.kids := atoms_additive (compOps ph) b n hs hv
+  have e1 : (blockOps ph).nd b n = Node.nd (compOps ph) b n := rfl
+  have e2 : (blockOps ph).vol b = sumBy (compOps ph).vol b.kids / b.sym := by
+    simp only [blockOps, nodeOps, Node.vol, hcoded]
+  rw [e1, e2, sumBy_div_const, ← ha]; ring
+
+/-- assembly (own volume = Σ block volumes, the hypothesis that excludes finding F5):
+`N_a · V_a = Σ_b Σ_c N_c · V_c / sym_b` -/
+theorem assem_atoms_eq_sum_components (ph : Phys) (a : Assem) (n : Nuc) (h : AssemOK ph a) :
+    (assemOps ph).nd a n * (assemOps ph).vol a =
+      sumBy (fun b => sumBy (fun c => c.vol * c.nd.get n / b.sym) b.kids) a.kids := by
+  obtain ⟨hs, hv, hvol, hb⟩ := h
+  have ha : Node.nd (blockOps ph) a n * sumBy (blockOps ph).vol a.kids
+      = sumBy (fun b => (blockOps ph).nd b n * (blockOps ph).vol b) a.kids := by
+    rw [atoms_additive (blockOps ph) a n hs hv]; apply sumBy_congr; intro b _; ring
+  have e1 : (assemOps ph).nd a n = Node.nd (blockOps ph) a n := rfl
+  rw [hvol, e1, ha]
+  apply sumBy_congr; intro b hbm
+  exact block_atoms_eq_sum_components ph b n (hb b hbm)
+
+/-- **core: `N_core · V_core = Σ_a N_a V_a = Σ_b N_b V_b = Σ_c N_c V_c / sym(block of c)`** — atoms counted as
+density × volume agree at component, block, assembly and core level -/
+theorem core_atoms_eq_sum_components (ph : Phys) (r : Core) (n : Nuc) (h : CoreOK ph r) :
+    (coreOps ph).nd r n * (coreOps ph).vol r =
+      sumBy (fun a => sumBy (fun b => sumBy (fun c => c.vol * c.nd.get n / b.sym) b.kids) a.kids) r.kids ∧
+    (coreOps ph).nd r n * (coreOps ph).vol r =
+      sumBy (fun a => (assemOps ph).nd a n * (assemOps ph).vol a) r.kids ∧
+    (coreOps ph).nd r n * (coreOps ph).vol r =
+      sumBy (fun a => sumBy (fun b => (blockOps ph).nd b n * (blockOps ph).vol b) a.kids) r.kids := by
+  obtain ⟨hcoded, hs, hv, ha⟩ := h
+  have hs0 : r.sym ≠ 0 := by rw [hs]; exact one_ne_zero
+  have hat : Node.nd (assemOps ph) r n * sumBy (assemOps ph).vol r.kids
+      = sumBy (fun a => (assemOps ph).nd a n * (assemOps ph).vol a) r.kids := by
+    rw [atoms_additive (assemOps ph) r n hs0 hv]; apply sumBy_congr; intro a _; ring
+  have hcore : (coreOps ph).nd r n * (coreOps ph).vol r
+      = sumBy (fun a => (assemOps ph).nd a n * (assemOps ph).vol a) r.kids := by
+    have e1 : (coreOps ph).nd r n = Node.nd (assemOps ph) r n := rfl
+    have e2 : (coreOps ph).vol r = sumBy (assemOps ph).vol r.kids := by
+      simp only [coreOps, nodeOps, Node.vol, hcoded, hs, div_one]
+    rw [e1, e2, hat]
+  refine ⟨?_, hcore, ?_⟩
+  · rw [hcore]; apply sumBy_congr; intro a ham
+    exact assem_atoms_eq_sum_components ph a n (ha a ham)
+  · rw [hcore]; apply sumBy_congr; intro a ham
+    rw [assem_atoms_eq_sum_components ph a n (ha a ham)]
+    apply sumBy_congr; intro b hbm
+    exact (block_atoms_eq_sum_components ph b n ((ha a ham).2.2.2 b hbm)).symm
+
 /-! ### non-vacuity: concrete objects satisfying the hypotheses -/
 
 private def exPh : Phys := ⟨2, 1, fun _ => 10⟩
